@@ -86,8 +86,18 @@ func snapshotSendTimesOut(rec *mon.Recorder, c int) {
 	}
 	r.note("node 3 joined (acknowledged)")
 	time.Sleep(800 * time.Millisecond) // the held snapshot message has timed out at its sender
-	if err := cl.StartNode(3); err != nil {
-		rec.Inconclusive(fmt.Sprintf("%s: join of node 4: %v", r.desc, err))
+	var jerr error
+	for attempt := 0; attempt < 3; attempt++ {
+		if jerr = cl.StartNode(3); jerr == nil {
+			break
+		}
+		// a join that was not applied in time (a loaded machine): the process would exit and be started again
+		cl.Crash(3)
+		cl.Teardown(3)
+		time.Sleep(300 * time.Millisecond)
+	}
+	if jerr != nil {
+		rec.Inconclusive(fmt.Sprintf("%s: join of node 4: %v", r.desc, jerr))
 		return
 	}
 	r.note("node 4 joined (acknowledged)")
